@@ -4,6 +4,7 @@
 mod c07;
 mod c08;
 mod c11;
+mod c12;
 mod enc;
 mod out;
 mod rng;
@@ -53,6 +54,7 @@ fn main() {
         "C07" => c07::run(&a),
         "C08" => c08::run(&a),
         "C11" => c11::run(&a),
+        "C12" => c12::run(&a),
         _ => {
             eprintln!("no harness for {}", prop);
             std::process::exit(2);
